@@ -1344,7 +1344,7 @@ NiShape* NifFile::CloneShape(NiShape* srcShape, const std::string& destShapeName
 	CloneChildren(destShape, srcNif, srcNif->GetBlockID(srcShape));
 
 	// Geometry Data
-	auto destGeomData = hdr.GetBlock<NiTriBasedGeomData>(destShape->DataRef());
+	auto destGeomData = hdr.GetBlock<NiGeometryData>(destShape->DataRef());
 	if (destGeomData)
 		destShape->SetGeomData(destGeomData);
 
